@@ -1238,6 +1238,76 @@ func ruleLoadErrRange(c *Ctx) {
 		}
 	}
 	c.census("C08-LOADERR", "diagnostics that take their range from a load error", n, 1)
+	// ... and a syntax error of the document is not made out of a load error without asking whose it is: where the
+	// server builds a parser.ParseError (what it publishes as the document's syntax errors) from the fields of a load
+	// error, the construction is control dependent on a comparison of the load error's Path - the loader's error
+	// list covers every file of the include tree, and an included file's syntax error published at its own
+	// coordinates in the including document is a diagnostic on a line that has no error
+	nConv := 0
+	spk := c.P.SSAPkg("internal/server")
+	for _, f := range c.P.ModuleFuncs() {
+		top := f
+		for top.Parent() != nil {
+			top = top.Parent()
+		}
+		if top.Pkg != spk {
+			continue
+		}
+		done := map[*ssa.BasicBlock]bool{}
+		for _, b := range f.Blocks {
+			for _, ins := range b.Instrs {
+				st, ok := ins.(*ssa.Store)
+				if !ok || done[b] {
+					continue
+				}
+				under := false
+				for a := st.Addr; ; {
+					fa, ok := a.(*ssa.FieldAddr)
+					if !ok {
+						break
+					}
+					if typeHasSuffix(fa.X.Type(), "parser.ParseError") {
+						under = true
+					}
+					a = fa.X
+				}
+				if !under || !(sliceReadsLoadErr(st.Val, "Range", isLoadErrField) || sliceReadsLoadErr(st.Val, "Message", isLoadErrField)) {
+					continue
+				}
+				done[b] = true
+				nConv++
+				var pathTested func(b *ssa.BasicBlock, depth int) bool
+				pathTested = func(b *ssa.BasicBlock, depth int) bool {
+					for _, cc := range controlDeps(b) {
+						bo, ok := cc.Cond.(*ssa.BinOp)
+						if !ok || (bo.Op != token.EQL && bo.Op != token.NEQ) {
+							continue
+						}
+						if sliceReadsLoadErr(bo.X, "Path", isLoadErrField) || sliceReadsLoadErr(bo.Y, "Path", isLoadErrField) {
+							return true
+						}
+					}
+					if depth >= 2 {
+						return false
+					}
+					sites := cgView{c}.callersOf(b.Parent())
+					if len(sites) == 0 {
+						return false
+					}
+					for _, s := range sites {
+						if !pathTested(s.Block(), depth+1) {
+							return false
+						}
+					}
+					return true
+				}
+				c.check(pathTested(b, 0), "C08-LOADERR", funcName(f), "a syntax error made from a load error belongs to the document", st.Pos(),
+					"the conversion is control dependent on a comparison of the load error's Path",
+					"the server turns load errors into syntax errors of the open document without testing which file each error belongs to: the loader's list covers the whole include tree, so a syntax error of an included file is published in the including document, at a position that is a position in the other file")
+			}
+		}
+	}
+	c.note("C08-LOADERR: conversions of load errors into syntax errors of the document: %d", nConv)
 }
 
 // sliceReadsLoadErr: the slice of v reads field `name` of an include.LoadError - through a field access that is
